@@ -689,6 +689,26 @@ def generate(rng, index, tier):
             {'op': 'simulate', 'on': 'm1', 'theta': gen_theta(rng, info),
              'times': gen_times(rng)}])
         shadow['m1']['indirect'] = False
+    by_comp = {}
+    for comp_, var_ in dosable:
+        by_comp.setdefault(comp_, []).append(var_)
+    twins_ = [c_ for c_, v_ in by_comp.items() if len(v_) >= 2]
+    if forced is None and cls == 'pkpd' and not reduced and twins_ \
+            and rng.random() < 0.4:
+        # two state variables in one compartment: the route is changed from
+        # one to the other, everything else about it staying the same
+        comp = rng.choice(twins_)
+        v1, v2 = rng.sample(by_comp[comp], 2)
+        direct = rng.random() < 0.5
+        ops.extend([
+            {'op': 'set_administration', 'on': 'm1', 'compartment': comp,
+             'amount_var': v1, 'direct': direct},
+            {'op': 'set_administration', 'on': 'm1', 'compartment': comp,
+             'amount_var': v2, 'direct': direct},
+            dict(gen_regimen(rng), on='m1'),
+            {'op': 'simulate', 'on': 'm1', 'theta': gen_theta(rng, info),
+             'times': gen_times(rng)}])
+        shadow['m1']['indirect'] = not direct
     for fk in plan:
         k = fk or rng.choices(kinds, [weights[x] for x in kinds])[0]
         h = rng.choice(handles)
